@@ -208,6 +208,17 @@ func c05Eval(cs C05Case) string {
 			if c := consumed(); c != sum {
 				return fmt.Sprintf("after message %d: %d bytes consumed from the source, declared lengths sum to %d", k, c, sum)
 			}
+			if len(cs.Cuts) == 0 && cs.Unit == 0 && len(w) > 20 && len(w) <= 1100 && len(w)%4 == 0 {
+				// the same message read from a source of its own while another source is being read
+				// (after an oversize message): no byte of the other stream may show up in it
+				mo, err := ReadOverlapped(w, dict.Default)
+				if err != nil {
+					return fmt.Sprintf("message %d cannot be read while another source is being read: %v", k, err)
+				}
+				if bo, err := mo.Serialize(); err != nil || !bytes.Equal(bo, w) {
+					return fmt.Sprintf("message %d read while another source was being read differs from its bytes at byte %d (bytes of another stream attributed to it)", k, firstDiff(bo, w))
+				}
+			}
 		}
 		// what follows the complete messages
 		var ms runtime.MemStats
@@ -486,7 +497,7 @@ func c05Enum(ctx *ev.Ctx, fn func(C05Case)) string {
 			}
 		}
 	}
-	return "all sequences of <=3 messages over body sizes {0,8,1016,1024,1028,4100,70000}; read through a scripted io.Reader and through bufio.NewReader on top of it; all cut vectors with <=2 (thorough 3) cuts - every offset for streams <=200 bytes, otherwise every offset within +-3 (thorough: +-24 for single messages) of a message border, header/body border, 1 KiB and 4 KiB boundary (quick: three large messages or more than 120 candidate offsets: <=1 cut; thorough: 3 cuts where the candidate set has <=70 offsets and no 70 000-byte message is involved, otherwise 2, and 1 for three messages including the 70 000-byte one); uniform 1..40-byte readers; truncation at every such offset (plain, 7-byte reads, and with one earlier cut for short streams); a header declaring each length 0..19 followed by 40 more bytes after every sequence of <=2 messages and as the first header. and messages whose last AVP declares 1..2000 bytes more than the (truthful) message holds, between two other messages: rejected, following message still read at its offset.; the base and single-cut cases also with a source that returns io.EOF together with the last bytes; sequences of <=3 messages with bodies from {9, 29, 1017, 1023, 8, 1024} containing at least one whose declared length is not a multiple of four (last AVP sent unpadded); all histories of <=3 reads over bodies {8,600,1016,2036,5000} with diam.MessageBufferLength set to one of {1024,4096,512} before each read. Distinct by (sizes, cuts, unit, bufio, truncation, bad length, overstatement, EOF mode, buffer lengths)."
+	return "all sequences of <=3 messages over body sizes {0,8,1016,1024,1028,4100,70000}; read through a scripted io.Reader and through bufio.NewReader on top of it; all cut vectors with <=2 (thorough 3) cuts - every offset for streams <=200 bytes, otherwise every offset within +-3 (thorough: +-24 for single messages) of a message border, header/body border, 1 KiB and 4 KiB boundary (quick: three large messages or more than 120 candidate offsets: <=1 cut; thorough: 3 cuts where the candidate set has <=70 offsets and no 70 000-byte message is involved, otherwise 2, and 1 for three messages including the 70 000-byte one); uniform 1..40-byte readers; truncation at every such offset (plain, 7-byte reads, and with one earlier cut for short streams); a header declaring each length 0..19 followed by 40 more bytes after every sequence of <=2 messages and as the first header. and messages whose last AVP declares 1..2000 bytes more than the (truthful) message holds, between two other messages: rejected, following message still read at its offset.; every message of the uncut cases also read from a source of its own overlapping with a read from another source after an oversize message; the base and single-cut cases also with a source that returns io.EOF together with the last bytes; sequences of <=3 messages with bodies from {9, 29, 1017, 1023, 8, 1024} containing at least one whose declared length is not a multiple of four (last AVP sent unpadded); all histories of <=3 reads over bodies {8,600,1016,2036,5000} with diam.MessageBufferLength set to one of {1024,4096,512} before each read. Distinct by (sizes, cuts, unit, bufio, truncation, bad length, overstatement, EOF mode, buffer lengths)."
 }
 
 func runC05(ctx *ev.Ctx) {
